@@ -126,9 +126,37 @@ KEYED_READS = MAP + r"(get|get_mut|contains_key|get_key_value)\b"
 WHOLE_READS = MAP + r"(keys|iter|values|len|is_empty|iter_mut|values_mut)\b"
 
 
-def _aware(prog, f, b, key_operand):
-    """a dominating is_expired/get_value*(same key) call, or the enclosing closure tests is_expired"""
+def _param_index(f, operand):
+    """index (1-based local number) of the parameter the operand is a plain view of, else None"""
+    s = src_of_operand(f, operand, through_calls=THROUGH + (r"String::as_str$", r"Deref>::deref$", r"AsRef<.*>>::as_ref$", r"Borrow<.*>>::borrow$"))
+    if s.kind == "path" and s.local is not None and 1 < s.local <= f.d["argc"] and not [x for x in s.fields if x != "*"]:
+        return s.local
+    return None
+
+
+def _callers(prog, f):
+    """[(caller fn, block, terminator)] of direct calls to f from executor code (handlers and their closures)"""
+    out = []
+    for g in prog.lib_fns():
+        if not g.file.startswith("src/redis/executor/"):
+            continue
+        for b, t in g.calls():
+            if prog.local_callee(g, t) is f:
+                out.append((g, b, t))
+    return out
+
+
+def _aware(prog, f, b, key_operand, depth=0):
+    """a dominating is_expired/get_value*(same key) call, or the enclosing closure tests is_expired; for a private helper that
+    receives the key as a parameter: every call site of the helper is expiry-aware for the key it passes (the obligation moves to
+    the callers - a helper extracted from a handler is judged like the code it was extracted from)"""
     kid = _key_id(f, key_operand) if key_operand is not None else None
+    if key_operand is not None and depth < 2 and f.kind in ("fn", "method") and f.short not in INTERNAL and not f.short.startswith("execute"):
+        pi = _param_index(f, key_operand)
+        if pi is not None:
+            cs = _callers(prog, f)
+            if cs and all(len(ct["args"]) >= pi and _aware(prog, g, cb, ct["args"][pi - 1], depth + 1) for g, cb, ct in cs):
+                return True
     for cb, ct in f.calls():
         if is_callee(ct, r"CommandExecutor::(is_expired|get_value|get_value_mut)$") and len(ct["args"]) > 1:
             if kid is None or _key_id(f, ct["args"][1]) == kid:
@@ -274,6 +302,23 @@ SHRINK = (r"RedisList::(lpop|rpop|trim|remove|lrem|pop_front|pop_back)$", r"Redi
 EMPTY = (r"Redis(List|Set|Hash|SortedSet)::(is_empty|len)$",)
 
 
+_er_cache = {}
+
+
+def _is_empty_remover(prog, h):
+    """helper summary: h contains an emptiness test on a stored collection from which data.remove(<its key parameter>) is reachable"""
+    if h.id in _er_cache:
+        return _er_cache[h.id]
+    res = False
+    if h.kind in ("fn", "method") and not h.short.startswith("execute"):
+        empties = [eb for eb, et in h.calls() if is_callee(et, *EMPTY)]
+        removes = [rb for rb, rt in h.calls() if is_callee(rt, MAP + r"remove\b") and _state(h, rt["args"][0])[0] == "data" and
+                   _param_index(h, rt["args"][1]) is not None]
+        res = any(rb in h.reach([eb]) for eb in empties for rb in removes)
+    _er_cache[h.id] = res
+    return res
+
+
 def _r015(ck, prog, cfg, meths):
     n = 0
     for m, f in _bodies(prog, meths):
@@ -295,6 +340,11 @@ def _r015(ck, prog, cfg, meths):
                 if is_callee(lt, MAP + r"(get|get_mut)\b", r"CommandExecutor::(get_value|get_value_mut)$") and lb != b:
                     if any(eb in f.reach([lb]) for eb in list(good_tests)):
                         good_tests.append(lb)
+            # a call to a private helper that itself tests a stored collection of the key it is given for emptiness and removes the key
+            for hb, ht in f.calls():
+                h = prog.local_callee(f, ht)
+                if h is not None and h is not f and h.file.startswith("src/redis/executor/") and _is_empty_remover(prog, h):
+                    good_tests.append(hb)
             # nothing was removed when the shrinking call returned None: that edge carries no obligation
             exempt = set()
             if "p" not in w["t"]["dest"] and f.locals[w["t"]["dest"]["l"]].startswith("std::option::Option<"):
